@@ -99,16 +99,25 @@ def run_m6a(rng, tier, case):
             Rs, Fs = 0, max(Fs, 1)      # (otherwise: declared running - possibly with the start ramp still in progress)
         elif Rs > 0 and ramp_in is not None:
             kw.update(last_dispatch=(s_[Rs - 1] if Rs <= k else 4. / stepf))      # the output of the step before the horizon, consistent with the declared state
+    mincap_steps = np.full(T, 4.)          # minimum output per step (volume per step)
+    if rng.random() < 0.3 and ramp_in is None:      # (with a ramp limit the chosen profile values are tuned to a minimum output of 4)
+        # a minimum output that changes in the course of the horizon (interval data): admission is unchanged, the output range of a step follows it
+        cstep = int(rng.integers(1, T)); mincap_steps[cstep:] = float(gen.pick(rng, [5., 3., 5.]))
     MR_in = (MRs - 0.5 if (half and MRs >= 2) else MRs) * stepf
     MD_in = (MDs - 0.5 if (half and MDs >= 2) else MDs) * stepf
-    params = dict(freq=freq, unit=unit, min_runtime_steps=MRs, min_downtime_steps=MDs, running_steps=Rs, off_steps=Fs, start_costs=sc, profiles=prof, ramp=ramp_in, half_steps=half, chp=chp, T=T)
+    params = dict(min_cap_per_step=mincap_steps.tolist(), freq=freq, unit=unit, min_runtime_steps=MRs, min_downtime_steps=MDs, running_steps=Rs, off_steps=Fs, start_costs=sc, profiles=prof, ramp=ramp_in, half_steps=half, chp=chp, T=T)
     case.key = env.spec_key(params); case.sample = params; case.spec = params
     case.feature('m6a', 'freq:%s/%s' % (freq, unit), 'profiles' if prof else 'no_profiles', 'chp' if chp else 'plant')
     with attach.recording() as rec, env.quiet():
         try:
             start = pd.Timestamp('2021-01-04')
             tg = Timegrid(start, start + T * pd.Timedelta(to_offset(freq)), freq=freq, main_time_unit=unit)
-            common = dict(min_cap=4. / stepf, max_cap=8. / stepf, min_runtime=MR_in, min_downtime=MD_in, time_already_running=Rs * stepf, time_already_off=Fs * stepf,
+            mc_ = 4. / stepf
+            if np.ptp(mincap_steps) > 0:
+                ch_ = start + int(np.argmax(mincap_steps != 4.)) * pd.Timedelta(to_offset(freq))
+                mc_ = {'start': [start - pd.Timedelta(days=40), ch_], 'end': [ch_, start + pd.Timedelta(days=40)], 'values': [4. / stepf, float(mincap_steps[-1]) / stepf]}
+                case.feature('m6a_time_varying_min_cap')
+            common = dict(min_cap=mc_, max_cap=8. / stepf, min_runtime=MR_in, min_downtime=MD_in, time_already_running=Rs * stepf, time_already_off=Fs * stepf,
                           start_costs=sc, **kw)
             if chp:
                 a = EA.CHPAsset(name='P', nodes=[Node('pw'), Node('ht')], conversion_factor_power_heat=0.5, max_share_heat=1., **common)
@@ -139,6 +148,82 @@ def run_m6a(rng, tier, case):
         case.check('uc.pattern_admission', fe == mo, params=params, pattern=list(p), eao_admits=bool(fe), model_admits=bool(mo))
     case.stats['patterns'] += 2 ** T
     case.nontrivial = excluded > 0
+    if ramp_in is None:
+        output_ranges(rng, tier, case, snap, on_vars, params, T, stepf, prof, k, m, MReff, MDs, Rs, Fs, chp, mincap_steps)
+
+
+def output_ranges(rng, tier, case, snap, on_vars, params, T, stepf, prof, k, m, MReff, MDs, Rs, Fs, chp, mincap_steps):
+    """For sampled admitted patterns: the smallest and the largest virtual output (power + factor x heat) of every step that the real rows allow
+    with the pattern pinned (HiGHS, start / shutdown flags left to the rows) against the documented range: 0 when off, the profile bounds at the
+    j-th step after a start / before a shutdown, [min_cap, max_cap] x step length otherwise."""
+    mp = snap.mapping
+    d = mp[(mp['type'] == 'd') & (mp['var_name'] == 'disp')]
+    pw = {int(t): int(i) for i, t, n_ in zip(d.index, d['time_step'], d['node']) if str(n_) == 'pw'}
+    ht = {int(t): int(i) for i, t, n_ in zip(d.index, d['time_step'], d['node']) if str(n_) == 'ht'}
+    if len(pw) != T:
+        return
+    A, lo, hi = solve.rows(snap)
+    integ = np.zeros(len(snap.c)); integ[solve.bool_vars(snap)] = 1
+    pats = [p for p in itertools.product([0, 1], repeat=T) if admitted(list(p), MReff, MDs, Rs, Fs) and any(p)]
+    if not pats:
+        return
+    sel = [pats[int(i)] for i in rng.permutation(len(pats))[:(5 if tier == 'quick' else 10)]]
+    s_ = [v * stepf for v in prof[0]] if prof else []; sd_ = [v * stepf for v in (prof[1] or [])] if prof else []
+    for p in sel:
+        l = snap.l.copy(); u = snap.u.copy()
+        pa = np.array(p, float)
+        l[on_vars] = np.maximum(l[on_vars], pa); u[on_vars] = np.minimum(u[on_vars], pa)
+        bi = solve.bool_vars(snap)
+        l[bi] = np.ceil(np.maximum(l[bi], 0.) - 1e-9); u[bi] = np.floor(np.minimum(u[bi], 1.) + 1e-9)
+        # documented range per step
+        want_lo = np.zeros(T); want_hi = np.zeros(T); known = np.ones(T, bool)
+        seq = list(p)
+        for t in range(T):
+            if seq[t] == 0:
+                continue
+            want_lo[t] = mincap_steps[t]; want_hi[t] = 8.
+        # runs
+        t = 0
+        while t < T:
+            if seq[t] == 1:
+                e = t
+                while e < T and seq[e] == 1:
+                    e += 1
+                # start profile: the run starts at t (inside the horizon), or was started Rs steps before the horizon
+                if t > 0 or Rs == 0:
+                    for j in range(k):
+                        if t + j < e:
+                            want_lo[t + j] = s_[j]; want_hi[t + j] = s_[j]
+                elif Rs < k:
+                    for j in range(Rs, k):
+                        if j - Rs < e:
+                            want_lo[j - Rs] = s_[j]; want_hi[j - Rs] = s_[j]
+                if e < T:
+                    for j in range(m):
+                        if e - 1 - j >= t:
+                            want_lo[e - 1 - j] = sd_[j]; want_hi[e - 1 - j] = sd_[j]
+                elif m:
+                    known[max(t, T - m):T] = False          # the run goes on beyond the horizon: whether its last steps belong to a shutdown ramp is open
+                t = e
+            else:
+                t += 1
+        bad = None
+        for t in range(T):
+            if not known[t]:
+                continue
+            obj = np.zeros(len(snap.c)); obj[pw[t]] = 1.
+            if chp and t in ht:
+                obj[ht[t]] = 0.5
+            rmin = solve.highs(obj, l, u, A, lo, hi, integ, 20., maximize_minus_c=True)
+            rmax = solve.highs(-obj, l, u, A, lo, hi, integ, 20., maximize_minus_c=True)
+            if rmin['status'] != 'optimal' or rmax['status'] != 'optimal':
+                case.event('range_solver_undecided'); continue
+            vmin = float(obj @ rmin['x']); vmax = float(obj @ rmax['x'])
+            if abs(vmin - want_lo[t]) > 1e-6 * (1 + abs(want_lo[t])) or abs(vmax - want_hi[t]) > 1e-6 * (1 + abs(want_hi[t])):
+                bad = {'step': t, 'smallest_output': vmin, 'largest_output': vmax, 'documented_range': [float(want_lo[t]), float(want_hi[t])]}
+                break
+        case.check('uc.output_range_for_pattern', bad is None, params=params, pattern=list(p), bad=bad)
+        case.stats['range_patterns'] += 1
 
 
 # -------------------------------------------------------------------------------------------------
@@ -188,6 +273,15 @@ def gen_uc_case(rng, with_profiles, dst_daily=False):
         if not a.get('min_downtime') and rng.random() < 0.6:
             a['min_downtime'] = gen.r2(float(pd.Timedelta(to_offset(g['freq'])) / pd.Timedelta(1, g['unit'])) * int(rng.integers(2, 4)))
     a['extra_costs'] = gen.pick(rng, [0., 0.5])
+    if a.get('start_ramp_lower_bounds') and not dst_daily and T >= 6 and rng.random() < 0.3:
+        # a minimum output that changes in the course of the horizon (interval data): profile bounds and capacity bounds are per step
+        mid_ = gen.naive_str(gen.grid_points(g)[int(rng.integers(2, T - 1))])
+        if gen.local_ok(mid_, g.get('tz')):
+            far0 = str(pd.Timestamp(g['start']).normalize() - pd.Timedelta(days=30) + pd.Timedelta(hours=12)); far1 = str(pd.Timestamp(g['end']).normalize() + pd.Timedelta(days=30, hours=12))
+            lv = a['min_cap']
+            a['min_cap'] = {'start': [far0, mid_], 'end': [mid_, far1], 'values': [lv, gen.r2(lv * gen.pick(rng, [0.5, 0.6, 1.2]))] if rng.random() < 0.7 else [gen.r2(lv * 0.5), lv]}
+            if max(a['min_cap']['values']) > a['max_cap']:
+                a['min_cap'] = lv
     assets = [a, {'type': 'SimpleContract', 'name': 'mkt_pw', 'nodes': ['pw'], 'price': 'pp', 'min_cap': -50. * f, 'max_cap': 50. * f, 'extra_costs': 0.}]
     if chp:
         assets.append({'type': 'SimpleContract', 'name': 'mkt_ht', 'nodes': ['ht'], 'price': 'ph', 'min_cap': -50. * f, 'max_cap': 0., 'extra_costs': 0.})
@@ -276,7 +370,9 @@ def run_m6bc(rng, tier, case, reference):
     cf = a.get('conversion_factor_power_heat', 1.) if chp else 0.
     v = power + cf * heat
     who = {'plant': {k: a[k] for k in a if k not in ('type', 'name', 'nodes', 'price')}, 'freq': g['freq'], 'unit': g['unit']}
-    mn = a['min_cap'] * ck.dt; mx = a['max_cap'] * ck.dt
+    mn = ck.vec(a['min_cap'], spec['prices']) * ck.dt; mx = a['max_cap'] * ck.dt
+    if isinstance(a['min_cap'], dict):
+        case.feature('time_varying_min_cap')
     tol = 1e-5 * (1 + mx.max())
     switches = 0
     k_s = len(a.get('start_ramp_lower_bounds') or []); k_d = len(a.get('shutdown_ramp_lower_bounds') or [])
@@ -416,7 +512,7 @@ def reference_uc(spec, ck):
     Mp = new(T); Mh = new(T) if chp else None; Mf = new(T) if fuel else None     # market flows
     c = np.zeros(nv); lb = np.zeros(nv); ub = np.zeros(nv); integ = np.zeros(nv)
     price = pr[a['price']] + (a.get('extra_costs', 0.) or 0.)
-    mn = a['min_cap'] * ck.dt; mx = a['max_cap'] * ck.dt
+    mn = ck.vec(a['min_cap'], spec['prices']) * ck.dt; mx = a['max_cap'] * ck.dt
     c[P_] = price; ub[P_] = mx
     if chp:
         c[H_] = cf * price
